@@ -16,12 +16,12 @@ CHECKS = {
   technique="Lean 4 proof by induction on fuel (logical relation between environment and slot semantics) + differential run of the compiled model against Generate/Eval",
   design="DESIGN.md §3 C01"),
  "C02": dict(
-  text="Generic optimizer soundness theorem (optimize_sound under Laws, P2.Generic) plus, for the value table, the regrouping laws proved for the operators flagged commutative (wrap-around integer multiplication) and a decide obligation that today's flagged set (regenerated from the live value.New()) lies inside the lawful set and that throw/random are declared impure; on the implementation every program runs with optimizer on and off on fresh generators with pure/impure call counters (outcome, impure calls during Generate, per-evaluation call log), including the exhaustive chain enumeration (c1 op x) op c2 for all operators and operand types, a purity sweep (impure call in every child position), a name-space sweep (closure fields named like every map method, locals named like static functions) and a typed-position sweep (42 typed positions x 19 constants of every type). The optimizer of the value language itself is modelled (P2.Lang.Opt.optimize: funcGen/optimizer.go rule by rule plus the constant inlining of parseLet): theorem optimize_preserves_eval: for every well-scoped program and every outcome of the reference semantics other than out-of-fuel, the optimized program has the related outcome at every large enough fuel (the same first-order value, closures equal up to optimization of their bodies, errors stay errors), for the whole optimizer incl. constant closures, proved from fuel monotonicity of the semantics and the library and a value relation with library naturality; the excluded configurations are exactly the two open findings and the pre-repair behaviour of 89b886b, each pinned by a witness; and on every generated program the tree the real parser+optimizer hand to the compiler is compared with the model's optimize (request OPT).",
+  text="Generic optimizer soundness theorem (optimize_sound under Laws, P2.Generic) plus, for the value table, the regrouping laws proved for the operators flagged commutative (wrap-around integer multiplication) and a decide obligation that today's flagged set (regenerated from the live value.New()) lies inside the lawful set and that throw/random are declared impure; on the implementation every program runs with optimizer on and off on fresh generators with pure/impure call counters (outcome, impure calls during Generate, per-evaluation call log), including the exhaustive chain enumeration (c1 op x) op c2 for all operators and operand types, a purity sweep (impure call in every child position), a name-space sweep (closure fields named like every map method, locals named like static functions) and a typed-position sweep (42 typed positions x 19 constants of every type); the impure counting function is also registered as a host METHOD (repair 8aa887a: a method call is pure only if no method of that name is declared impure - model Cfg.methNamePure, the OPT request carries the impure method names). The optimizer of the value language itself is modelled (P2.Lang.Opt.optimize: funcGen/optimizer.go rule by rule plus the constant inlining of parseLet): theorem optimize_preserves_eval: for every well-scoped program and every outcome of the reference semantics other than out-of-fuel, the optimized program has the related outcome at every large enough fuel (the same first-order value, closures equal up to optimization of their bodies, errors stay errors), for the whole optimizer incl. constant closures, proved from fuel monotonicity of the semantics and the library and a value relation with library naturality; the excluded configurations are exactly the two open findings and the pre-repair behaviour of 89b886b, each pinned by a witness; and on every generated program the tree the real parser+optimizer hand to the compiler is compared with the model's optimize (request OPT).",
   note="Float regrouping differs by rounding (allowed by the property; relative 1e-12 on same-operator float chains). Two known findings (int wrap across the int/float border; And/Or matrices accept ints while folding).",
   technique="Lean 4 proof (rewrite-rule soundness under operator laws) + regenerated flag table with decide obligation + on/off differential run with call counters",
   design="DESIGN.md §3 C02"),
  "C17": dict(
-  text="Lean 4 theorems json_string_roundtrip / json_export_roundtrip: for every value tree of any depth and every string, the exported document is accepted by the reference decoder and decodes to the same structure, for every escape table satisfying the decidable criterion TableOK; the table is regenerated from the real exporter for all 1.1M Unicode scalar values on every run and TableOK is discharged by decide; model bytes are compared with the real exporter's bytes on generated trees, and the real output is parsed back with encoding/json.",
+  text="Lean 4 theorems json_string_roundtrip / json_export_roundtrip: for every value tree of any depth and every string, the exported document is accepted by the reference decoder and decodes to the same structure, for every escape table satisfying the decidable criterion TableOK; the table is regenerated from the real exporter for all 1.1M Unicode scalar values on every run and TableOK is discharged by decide; model bytes are compared with the real exporter's bytes on generated trees, and the real output is parsed back with encoding/json; a position sweep puts every class of escaped or multi-byte character at every byte offset 0..320 of long strings and keys (chunked writers).",
   note="ToString of scalars is an oracle; encoding/json is the standard parser; the Lean reference decoder does not accept surrogate-pair escapes.",
   technique="Lean 4 proof (induction on trees, generic in the escape table) + regenerated escape table with decide obligation + differential run against compiled model",
   design="DESIGN.md §3 C17"),
